@@ -52,3 +52,10 @@ Theorem C08_source_accounting : forall m start ptr lsize ab lim, start <= ptr ->
   call_fn src_fns en "reset_allocated_bytes" [] = Ret (VN (lsize - actual_footer)).
 Proof. intros m start ptr lsize ab lim H1 H2 en. exact (proj2 (src_getters_ok m start ptr lsize ab lim H1 H2)). Qed.
 Print Assumptions C08_source_accounting.
+
+(* allocated_bytes_including_metadata adds one footer per item of the raw chunk iterator (pinned
+   statement; the iterator's walk is pinned by C10_source_frames) — q_allocated_bytes_incl *)
+From Coq Require Import String.
+Theorem C08_source_metadata_frame : lookup "metadata_counts_chunks"%string src_frames = Some true.
+Proof. vm_compute. reflexivity. Qed.
+Print Assumptions C08_source_metadata_frame.
